@@ -16,7 +16,7 @@ inductive HVal where
   | fromSpec (f : FromTo)
   | to (t : FromTo)
   | cseq (c : CSeq)
-  deriving Repr, BEq, DecidableEq
+  deriving Repr, DecidableEq
 
 /-- `%v` of a header value. -/
 def HVal.encode : HVal → Bytes
@@ -31,18 +31,18 @@ def HVal.encode : HVal → Bytes
 structure Header where
   name : Bytes
   value : HVal
-  deriving Repr, BEq, DecidableEq
+  deriving Repr, DecidableEq
 
 inductive StartLine where
   | request (method : Bytes) (uri : AddrSpec) (version : Bytes)
   | status (version : Bytes) (code : Int) (reason : Bytes)
-  deriving Repr, BEq, DecidableEq
+  deriving Repr, DecidableEq
 
 structure Message where
   start : StartLine
   headers : List Header
   body : Bytes
-  deriving Repr, BEq, DecidableEq
+  deriving Repr, DecidableEq
 
 /-! ### header-name classes (compact table is a parameter so that theorems hold for any table) -/
 
